@@ -4,3 +4,4 @@ import Wl2kVerif.Ops.PosRep
 import Wl2kVerif.Ops.Msg
 import Wl2kVerif.Ops.Url
 import Wl2kVerif.Ops.Lzhuf
+import Wl2kVerif.Ops.Session
